@@ -405,6 +405,11 @@ func (r *Reconciler) selectNodes(logger logr.Logger, daemonset *datadoghqv1alpha
 		// Look for the values of the labels set as NodeAntiAffinityKeys of the nodes already selected as canary
 		if len(daemonsetSpec.Strategy.Canary.NodeAntiAffinityKeys) != 0 {
 			for _, node := range nodeList.Items {
+				// Only the nodes on which the pod can be scheduled take part in the spreading,
+				// otherwise label values carried by unschedulable nodes only would shrink the quota of the others.
+				if !scheduler.CheckNodeFitness(logger.WithValues("filter", "antiAffinity values"), newPod, &node) {
+					continue
+				}
 				antiAffinityKeysValue := getAntiAffinityKeysValue(&node, daemonsetSpec)
 				if _, found := antiAffinityKeysValues[antiAffinityKeysValue]; !found {
 					antiAffinityKeysValues[antiAffinityKeysValue] = 0
@@ -449,6 +454,11 @@ func (r *Reconciler) selectNodes(logger logr.Logger, daemonset *datadoghqv1alpha
 			// so, we want to reject nodes as soon as the number of selected nodes with that label value exceeds 3 = ceil(5/2)
 			//
 			// An efficient way to compute `ceil(a/b)` with only integer computing is to compute `(a+b-1)/b`.
+			// A node on which the pod cannot be scheduled is never selected and must not consume the quota of its label value.
+			if !scheduler.CheckNodeFitness(logger, newPod, &node) {
+				continue
+			}
+
 			if len(daemonsetSpec.Strategy.Canary.NodeAntiAffinityKeys) != 0 {
 				antiAffinityKeysValue := getAntiAffinityKeysValue(&node, daemonsetSpec)
 				if nb := antiAffinityKeysValues[antiAffinityKeysValue]; nb >= (nbCanaryPod+len(antiAffinityKeysValues)-1)/len(antiAffinityKeysValues) {
@@ -457,14 +467,34 @@ func (r *Reconciler) selectNodes(logger logr.Logger, daemonset *datadoghqv1alpha
 				antiAffinityKeysValues[antiAffinityKeysValue]++
 			}
 
-			if scheduler.CheckNodeFitness(logger, newPod, &node) {
-				currentNodes = append(currentNodes, node.Name)
-			}
+			currentNodes = append(currentNodes, node.Name)
 			// All nodes are found. We can exit now!
 			if len(currentNodes) == nbCanaryPod {
 				logger.V(1).Info("All nodes were found")
 
 				break
+			}
+		}
+
+		// The spreading over the NodeAntiAffinityKeys values is a preference: when it prevented selecting enough nodes
+		// although enough schedulable nodes exist, complete the selection with the remaining schedulable nodes.
+		if len(currentNodes) < nbCanaryPod && len(daemonsetSpec.Strategy.Canary.NodeAntiAffinityKeys) != 0 {
+			for _, node := range nodeList.Items {
+				alreadySelected := false
+				for _, currentNode := range currentNodes {
+					if node.Name == currentNode {
+						alreadySelected = true
+
+						break
+					}
+				}
+				if alreadySelected || !scheduler.CheckNodeFitness(logger, newPod, &node) {
+					continue
+				}
+				currentNodes = append(currentNodes, node.Name)
+				if len(currentNodes) == nbCanaryPod {
+					break
+				}
 			}
 		}
 	}
